@@ -130,6 +130,12 @@ def main(argv):
         else:
             uniq[k].config += ',' + f.config
     findings = list(uniq.values())
+    # a missing table entry / a count below its floor is a failure of the machinery to match the code
+    # (e.g. after a rename), not evidence that the property is violated: fail closed as CHECK-BROKEN
+    mach = [f for f in findings if not f.ok and (f.key.startswith(('floor', 'table:')) or f.key == 'floor')]
+    for f in mach:
+        broken.append('rule %s could not be matched against the code: %s' % (f.full_key(), f.msg))
+    findings = [f for f in findings if f not in mach]
     viol = [f for f in findings if not f.ok]
     known_hits = [f for f in viol if (prop, f.full_key()) in known]
     new_viol = [f for f in viol if (prop, f.full_key()) not in known]
